@@ -256,6 +256,68 @@ theorem polyMod_short_ne_zero (bs : List Bool) (hl : bs.length ≤ 24) (h : true
   have := valBE_pos bs h
   simp at *; omega
 
+/-! ### the register formulation is schoolbook long division by the 25-bit generator -/
+
+theorem xor_top (a p : Nat) (ha : a < 2 ^ 24) (hp : p < 2 ^ 24) :
+    (2 ^ 24 + a) ^^^ (2 ^ 24 + p) = a ^^^ p := by
+  have hm : ((2 ^ 24 + a) ^^^ (2 ^ 24 + p)) % 2 ^ 24 = a ^^^ p := by
+    rw [Nat.xor_mod_two_pow]
+    congr 1 <;> omega
+  have hd : ((2 ^ 24 + a) ^^^ (2 ^ 24 + p)) / 2 ^ 24 = 0 := by
+    rw [← Nat.shiftRight_eq_div_pow, Nat.shiftRight_xor_distrib, Nat.shiftRight_eq_div_pow,
+      Nat.shiftRight_eq_div_pow]
+    have h1 : (2 ^ 24 + a) / 2 ^ 24 = 1 := by omega
+    have h2 : (2 ^ 24 + p) / 2 ^ 24 = 1 := by omega
+    rw [h1, h2]; rfl
+  have := Nat.mod_add_div ((2 ^ 24 + a) ^^^ (2 ^ 24 + p)) (2 ^ 24)
+  rw [hm, hd] at this
+  omega
+
+theorem divStep_hi (n p g bt : Nat) (hn : 2 ^ 23 ≤ n) (hn2 : n < 2 ^ 24) (hb : bt ≤ 1) (hp : p < 2 ^ 24)
+    (hg : g = 2 ^ 24 + p) : (2 * n + bt) ^^^ g = (2 * n - 2 ^ 24 + bt) ^^^ p := by
+  subst hg
+  have : 2 * n + bt = 2 ^ 24 + (2 * n - 2 ^ 24 + bt) := by omega
+  rw [this]
+  exact xor_top _ _ (by omega) hp
+
+theorem divStep_eq (r : BitVec 24) (b : Bool) : divStep r.toNat b = (feed r b).toNat := by
+  have hr := r.isLt
+  have hb : b.toNat ≤ 1 := by cases b <;> simp
+  unfold divStep
+  by_cases h : r.toNat < 2 ^ 23
+  · rw [feed_toNat r b h]
+    simp only
+    rw [if_neg (by omega)]
+  · simp only
+    rw [if_pos (by omega)]
+    have hmsb : r.msb = true := by rw [BitVec.msb_eq_decide]; simp; omega
+    have hP : P.toNat = 16774153 := by simp [P, GENERATOR]
+    have hG : GENERATOR = 2 ^ 24 + P.toNat := by rw [hP]; simp [GENERATOR]
+    have hs : (r <<< 1).toNat = 2 * r.toNat - 2 ^ 24 := by
+      rw [BitVec.toNat_shiftLeft, Nat.shiftLeft_eq]; omega
+    have hx : (2 * r.toNat - 2 ^ 24) ^^^ b.toNat = 2 * r.toNat - 2 ^ 24 + b.toNat := by
+      have he : 2 * r.toNat - 2 ^ 24 = 2 * (r.toNat - 2 ^ 23) := by omega
+      rw [he]
+      cases b
+      · rw [show false.toNat = 0 from rfl, Nat.xor_zero, Nat.add_zero]
+      · rw [show true.toNat = 1 from rfl]; exact two_mul_xor_one (r.toNat - 2 ^ 23)
+    rw [divStep_hi r.toNat P.toNat GENERATOR b.toNat (by omega) hr hb P.isLt hG]
+    unfold feed step0
+    rw [hmsb]
+    simp only [↓reduceIte, BitVec.toNat_xor, hs]
+    have hbit : (if b = true then 1#24 else 0#24).toNat = b.toNat := by cases b <;> rfl
+    rw [hbit, ← hx, Nat.xor_assoc, Nat.xor_assoc, Nat.xor_comm P.toNat]
+
+theorem polyModNat_from (bs : List Bool) (r : BitVec 24) :
+    bs.foldl divStep r.toNat = (polyModFrom r bs).toNat := by
+  induction bs generalizing r with
+  | nil => rfl
+  | cons b bs ih => rw [List.foldl_cons, divStep_eq, ih, polyModFrom_cons]
+
+/-- the 24-bit register formulation is schoolbook long division by the 25-bit generator -/
+theorem polyModNat_eq (bs : List Bool) : polyModNat bs = (polyMod bs).toNat :=
+  polyModNat_from bs 0#24
+
 /-! ### error patterns -/
 
 /-- a non-zero pattern confined to a window of at most 24 consecutive positions has a
@@ -350,5 +412,42 @@ theorem bits_pack : ∀ (bs : List Bool), bs.length % 8 = 0 → bits (pack bs) =
     | [_, _, _, _, _, _], _, h => simp at h
     | [_, _, _, _, _, _, _], _, h => simp at h
     | _ :: _ :: _ :: _ :: _ :: _ :: _ :: _ :: _, hne, _ => exact absurd rfl (hne _ _ _ _ _ _ _ _ _)
+
+/-! ### byte strings -/
+
+/-- every element is a byte -/
+def Bytes (bs : List Nat) : Prop := ∀ b ∈ bs, b < 256
+
+instance (bs : List Nat) : Decidable (Bytes bs) := by unfold Bytes; infer_instance
+
+theorem pack_length (bs : List Bool) : (pack bs).length = bs.length / 8 := by
+  fun_induction pack bs with
+  | case1 b7 b6 b5 b4 b3 b2 b1 b0 rest ih => simp [ih]; omega
+  | case2 bs hne =>
+    match bs, hne with
+    | [], _ => simp
+    | [_], _ => simp
+    | [_, _], _ => simp
+    | [_, _, _], _ => simp
+    | [_, _, _, _], _ => simp
+    | [_, _, _, _, _], _ => simp
+    | [_, _, _, _, _, _], _ => simp
+    | [_, _, _, _, _, _, _], _ => simp
+    | _ :: _ :: _ :: _ :: _ :: _ :: _ :: _ :: _, hne => exact absurd rfl (hne _ _ _ _ _ _ _ _ _)
+
+theorem valBE8_lt (b7 b6 b5 b4 b3 b2 b1 b0 : Bool) : valBE [b7, b6, b5, b4, b3, b2, b1, b0] < 256 :=
+  by
+  have := valBE_lt [b7, b6, b5, b4, b3, b2, b1, b0]
+  simpa using this
+
+theorem pack_bytes (bs : List Bool) : Bytes (pack bs) := by
+  fun_induction pack bs with
+  | case1 b7 b6 b5 b4 b3 b2 b1 b0 rest ih =>
+    intro x hx
+    simp only [List.mem_cons] at hx
+    rcases hx with rfl | hx
+    · exact valBE8_lt ..
+    · exact ih x hx
+  | case2 bs hne => intro x hx; simp at hx
 
 end Rs1090.Proofs.Crc
